@@ -11,11 +11,14 @@ vars == <<l, dim, max, seen, count>>
 Init == l = 1 /\ dim = 0 /\ max = 0 /\ seen = {} /\ count = 0
 Inv(n) == {f \in [1..n -> 1..n] : \A d \in 1..n : f[f[d]] = d}
 Commute(f, g, n) == \A d \in 1..n : f[g[d]] = g[f[d]]
-Universe(n, dm) == LET I == Inv(n)  P == {q \in I \X I : Commute(q[1], q[2], n)} IN
-   IF dm = 1 THEN {<<a, b>> : a \in I, b \in I}
-   ELSE IF dm = 2 THEN {<<p[1], b, p[2]>> : p \in P, b \in I}
-   ELSE {<<z[1][1], z[2][1], z[1][2], z[2][2]>> : z \in {w \in P \X P : Commute(w[1][1], w[2][2], n)}}
-Classes(n, dm) == {CanonSet(T) : T \in {U \in {[n |-> n, dim |-> dm, op |-> t] : t \in Universe(n, dm)} : Connected(U)}}
+\* the classes are accumulated family by family (one family per choice of the commuting operations), so that
+\* no set with millions of tuples is ever built
+Mk(n, dm, t) == [n |-> n, dim |-> dm, op |-> t]
+ClassesOfFamily(n, dm, tuples) == {CanonSet(T) : T \in {U \in {Mk(n, dm, t) : t \in tuples} : Connected(U)}}
+Classes(n, dm) == LET I == Inv(n)  P == {q \in I \X I : Commute(q[1], q[2], n)} IN
+   IF dm = 1 THEN UNION {ClassesOfFamily(n, dm, {<<a, b>> : b \in I}) : a \in I}
+   ELSE IF dm = 2 THEN UNION {ClassesOfFamily(n, dm, {<<p[1], b, p[2]>> : b \in I}) : p \in P}
+   ELSE UNION {ClassesOfFamily(n, dm, {<<p[1], q[1], p[2], q[2]>> : q \in {w \in P : Commute(p[1], w[2], n)}}) : p \in P}
 Header(e) == dim' = e.dim /\ max' = e.max /\ seen' = {} /\ count' = 0
 EmitOK(e) == LET S == e.set IN
    /\ S.dim = dim /\ S.n <= max
